@@ -69,8 +69,14 @@ func Start(id, level, rule string) *Rec {
 		distinct: map[string]struct{}{}, counters: map[string]int64{}, extra: map[string]interface{}{},
 		known: map[string]string{}, knownSeen: map[string]int64{}, viol: map[string]int64{},
 		violReplay: map[string]string{}, srand: SubRand(Seed(), "samples/"+id)}
-	b, err := ioutil.ReadFile(filepath.Join(OutDir(), "known_findings.json"))
-	if err == nil {
+	paths := []string{filepath.Join(OutDir(), "known_findings.json")}
+	more, _ := filepath.Glob(filepath.Join(OutDir(), "known", "*.json"))
+	sort.Strings(more)
+	for _, p := range append(paths, more...) {
+		b, err := ioutil.ReadFile(p)
+		if err != nil {
+			continue
+		}
 		var kf knownFile
 		if json.Unmarshal(b, &kf) == nil {
 			for _, f := range kf.Findings {
